@@ -424,6 +424,11 @@ pub fn format_filesize(size: u64, modifier: &str) -> String {
         zeroes = 2;
     }
 
+    // (the formatter takes the precision as a 16-bit count)
+    if zeroes > u16::MAX as i32 {
+        error_exit("Unknown file size modifier", "precision is too large");
+    }
+
     if conventional {
         format = humansize::WINDOWS;
     }
